@@ -25,6 +25,7 @@ type Contract struct {
 	Assigns    []*Clause // nil = unspecified; a clause with Text "nothing" = pure
 	HasAssigns bool
 	NoInline   bool
+	Inline     bool // execute the body in place at call sites (with this contract's loop annotations) instead of using the contract
 	Unroll     map[int]int
 	File       string
 	Line       int
@@ -267,6 +268,8 @@ func (c *Contract) addClause(word, rest string, line int) error {
 		for _, n := range strings.Split(rest, ",") {
 			c.Nilable[strings.TrimSpace(n)] = true
 		}
+	case "inline":
+		c.Inline = true
 	case "noinline":
 		c.NoInline = true
 	case "unroll":
